@@ -80,6 +80,9 @@ func (c *Ctx) count(kind, input string, nontrivial bool) {
 			c.distinct[k] = struct{}{}
 		}
 	}
+	if os.Getenv("VERIF_KINDS") != "" {
+		c.res.Classes["kind:"+kind]++
+	}
 	if c.sampleN[kind] < 3 {
 		c.sampleN[kind]++
 		s := kind + " " + input
